@@ -300,6 +300,25 @@ func nhScenarioImport(rec *nhRec, tid int, seed int64, smType string, store stri
 		fail("export failed")
 		return
 	}
+	// still quiet? (a proposal that timed out at the client may have been applied meanwhile)
+	{
+		same := false
+		for try := 0; try < 40 && !same; try++ {
+			ctx, cancel := context.WithTimeout(context.Background(), time.Second)
+			a, err := enh.SyncRead(ctx, c.shard, nhQuery{Op: "dump"})
+			cancel()
+			if err == nil {
+				if a.(nhAnswer).Dump != dump {
+					break
+				}
+				same = true
+			}
+		}
+		if !same {
+			fail("state moved between the reference read and the export")
+			return
+		}
+	}
 	srcDir := eh.fs.PathJoin("/export", server.GetSnapshotDirName(exIdx))
 	// history after the export: must be gone after the import
 	propose(rng.Intn(6), 5000)
@@ -429,7 +448,7 @@ func nhScenarioImport(rec *nhRec, tid int, seed int64, smType string, store stri
 			panic(fmt.Sprintf("start replica after import: %v", err))
 		}
 	}
-	leader := r.waitLeader(5 * time.Second)
+	leader := r.waitLeader(20 * time.Second)
 	for _, hid := range importers {
 		nh := r.nhOf(hid)
 		ev := nhEv{"h": hid, "leader": leader, "read": false}
